@@ -93,6 +93,19 @@ func cmdChild(args []string) int {
 			continue
 		}
 		r := w.Result(idx)
+		if os.Getenv("RV_TWICE") != "" && len(r.Viol) == 0 {
+			// same inputs again, on fresh nodes, in this process: re-execute the
+			// recorded actions (not the PRNG)
+			tf := &sim.TraceFile{Cfg: w.Cfg, Idx: idx, Actions: w.Trace}
+			w2, herr2 := sim.ReplayWorld(tf, false, 0)
+			if herr2 != "" {
+				bo.HarnessErrs = append(bo.HarnessErrs, fmt.Sprintf("world %d replay: %s", idx, herr2))
+			} else if d2 := w2.Digest(); d2 != r.Digest {
+				r.Viol = append(r.Viol, sim.Violation{Prop: "C19", Msg: fmt.Sprintf("replaying the same %d actions on fresh nodes in the same process gives a different digest over all Ready structs: %s vs %s", len(w.Trace), r.Digest[:16], d2[:16])})
+			} else {
+				r.Stats["digests-compared-in-process"]++
+			}
+		}
 		mergeStats(bo.Stats, r.Stats)
 		bo.PerProfile[r.Profile]++
 		if sim.Nontrivial(*prop, r.Stats) {
